@@ -57,19 +57,20 @@ VROOT_S = posixpath.join(VBASE_S, 'AYC06SRCROOT')
 LONG1 = 'L' * 300                              # one component > 255 bytes: ENAMETOOLONG (36), a plain OSError
 LONG2 = 'ü' * 200 + '.yaml'                    # 200 characters, 405 bytes
 LONG3 = 'sub/' + 'M' * 256
+LONGP = 'D' * 120 + '/' + 'E' * 120 + '/' + 'F' * 30 + '.yaml'     # an existing file whose NAME is longer than 255 characters, every component shorter (round 8)
 KEEP = 'k: |+\n  keep\n\n\n'
 FILES = [['f0.yaml', 'a: 1\n'], ['f1.yaml', 'b: 2\n---\nc: 3\n'], ['a b.yaml', 'sp: 1\n'], ['ü ñ.yaml', 'uni: "ü"\n'],
          ['a: b', 'z: 1\n'], ['{x: 1}', 'brace: 1\n'], ['k=v', 'kv: 1\n'], ['sub/g.yaml', 'g: |+\n  keep\n\n\n'],
          ['empty.yaml', ''], ['nonl.yaml', 'a: 1'], ['crlf.yaml', 'a: 1\r\nb: 2\r\n'], ['ws.yaml', 'ws: 0\n'], ['ws.yaml ', 'ws: 1\n'],
          ['home/h.yaml', 'h: 1\n'], ['~lit.yaml', 'tilde: 1\n'], ['~/h.yaml', 'lit: 1\n'], ['blk.yaml', 'k: |\n  x\n\n\n'],
-         ['bad.yaml', 'a: b: c\n'], ['two.yaml', 'a: 1\n---\n{bad\n']]
+         ['bad.yaml', 'a: b: c\n'], ['two.yaml', 'a: 1\n---\n{bad\n'], [LONGP, 'lp: 1\n']]
 DIRS = ['adir', 'd: 1', 'home/hd']
 BINS = ['bin.yaml']
 LOOPS = ['loop']
 UNREAD = ['noperm.yaml']
 NAMES = [f for f, _ in FILES] + ['$ROOT/f0.yaml', './f0.yaml', 'sub/../f0.yaml', '~/h.yaml', '~/hd', '~', '~nosuchuserzz/x.yaml',
          'nofile.yaml', 'sub/nofile.yaml', 'nodir/x.yaml', 'f0.yaml ', ' f0.yaml', 'f0.yaml\n', 'F0.YAML', 'f0.yaml\t', 'adir', 'd: 1',
-         'f0.yaml/x', 'loop', 'bin.yaml', 'noperm.yaml', LONG1, LONG2, LONG3, '$ROOT/' + LONG1]
+         'f0.yaml/x', 'loop', 'bin.yaml', 'noperm.yaml', LONG1, LONG2, LONG3, '$ROOT/' + LONG1, LONGP, LONGP, '$ROOT/' + LONGP]
 TEXTS = ['a: 1\n', 'a: 1', KEEP, 'k: |\n  clip\n\n\n', 'k: |-\n  strip\n\n', 'k: >+\n  fold\n  ed\n\n', '--- |+\n text\n\n', '\n\na: 1\n',
          'a: 1\n\n\n', '  a: 1  ', 'a: 1 \n \n', ' \n a: 1\n', 'a: 1\n---\nb: 2\n', 'a: 1\n...\n', '', ' ', '\n', 'main.yaml', 'conf/a.yaml',
          'x.yaml ', 'a: b: c', '{a: 1', 'x: !unsafe 1\n', "a: 'ü'\n", 'k: ' + 'v' * 300, 'k: |+\n  ' + 'v' * 300 + '\n\n\n', 'k: ' + 'w' * 5000 + '\n \n',
@@ -137,7 +138,7 @@ def gen_sources_case(rng):
 
 def corpus():
     out = []
-    reps = ['f0.yaml', 'a: b', 'nofile.yaml', KEEP, 'ws.yaml ', 'x.yaml ', '~/h.yaml', '$ROOT/f1.yaml', LONG1, LONG2, 'k: |\n  clip\n\n\n',
+    reps = ['f0.yaml', LONGP, 'a: b', 'nofile.yaml', KEEP, 'ws.yaml ', 'x.yaml ', '~/h.yaml', '$ROOT/f1.yaml', LONG1, LONG2, 'k: |\n  clip\n\n\n',
             '\n\na: 1\n\n\n', 'loop', 'crlf.yaml', 'two.yaml', '', 'a: "\x00"']
     for s in reps:      # the full product mode x filename, each on a builder of its own
         for raw in (None, False, True):
